@@ -44,8 +44,8 @@ CharIn(a, c) == IF a[1] = "ci" THEN \E v \in Variants(c) : CharIn0(a[2], v) ELSE
 RECURSIVE WF0(_, _)
 WF0(r, ci) ==
    CASE r[1] = "lit"   -> r[2] \in Nat
-     [] r[1] = "set"   -> TRUE
-     [] r[1] = "nset"  -> ~ci                  \* complement inside w/nocase: order of folding and complement is not fixed
+     [] r[1] = "set"   -> r[2] # {}
+     [] r[1] = "nset"  -> ~ci /\ r[2] # {}                  \* complement inside w/nocase: order of folding and complement is not fixed
      [] r[1] = "range" -> r[2] <= r[3]
      [] r[1] \in {"any", "eps", "empty", "bol", "eol"} -> TRUE
      [] r[1] \in {"seq", "or"} -> WF0(r[2], ci) /\ WF0(r[3], ci)
@@ -54,6 +54,20 @@ WF0(r, ci) ==
      [] r[1] = "rep"   -> r[2] >= 0 /\ (r[3] = -1 \/ r[2] <= r[3]) /\ WF0(r[4], ci)
      [] OTHER -> FALSE
 WF(r) == WF0(r, FALSE)
+
+(* generator restriction, not part of the semantics: chibi folds case by enumerating the class, so a class with
+   very many members inside w/nocase (any, a complement, a wide range) takes minutes to compile; such SREs are
+   not generated (their results are not in question, the run time is)                                        *)
+RECURSIVE Tractable0(_, _)
+Tractable0(r, ci) ==
+   CASE r[1] \in {"any", "nset"} -> ~ci
+     [] r[1] = "range" -> ~ci \/ r[3] - r[2] <= 1000
+     [] r[1] \in {"seq", "or"} -> Tractable0(r[2], ci) /\ Tractable0(r[3], ci)
+     [] r[1] \in {"star", "plus", "opt", "sub"} -> Tractable0(r[2], ci)
+     [] r[1] = "nocase" -> Tractable0(r[2], TRUE)
+     [] r[1] = "rep" -> Tractable0(r[4], ci)
+     [] OTHER -> TRUE
+Tractable(r) == Tractable0(r, FALSE)
 
 RECURSIVE Depth(_)
 Depth(r) == CASE r[1] \in {"seq", "or"} -> 1 + (IF Depth(r[2]) >= Depth(r[3]) THEN Depth(r[2]) ELSE Depth(r[3]))
